@@ -410,7 +410,14 @@ class TaskManager(rpu.ClientComponent):
                     self._log.debug('tmgr: state known: %s', uid)
                     continue
 
-                target, passed = rps._task_state_progress(uid, current, target)
+                try:
+                    target, passed = rps._task_state_progress(uid, current,
+                                                              target)
+                except ValueError as e:
+                    # contradicting final state: ignore this update, but
+                    # keep handling the other tasks of this bulk
+                    self._log.warn('tmgr: ignore update for %s: %s', uid, e)
+                    continue
 
                 if target in [rps.CANCELED, rps.FAILED]:
                     # don't replay intermediate states
